@@ -436,14 +436,15 @@ def run(ctx):
     ctx.bounded("programs", "pop-on programs against a reference CEA-608 decoder: every PAC address (15x8), tab offset and "
                 "table code on its own, single and doubled (PAC TO doubled as a unit), and seeded programs of 1-3 rows in "
                 "ascending screen order with basic / special / extended characters, italic PACs, mid-row codes and "
-                "backspaces: same rows and text (whitespace-normalised), position and layout of the first row, balanced "
+                "backspaces: same rows and words, position and layout of the first row, balanced "
                 "italics covering the same characters, equal times for the parts of one screen",
                 lambda b: bounded(ctx, b))
     ctx.trust("P-ground: complete evaluation over pycaption's code tables against the CEA-608 tables in refs/cea608.py "
               "(my reading of CTA-608-E); the doubled-code lemmas are evaluated on the real function for every table "
               "word x representative decoder states")
-    ctx.assume("whole-stream equivalence with a CEA-608 decoder is bounded only; text is compared whitespace-normalised "
-               "(pycaption does not reproduce the cell a mid-row code occupies)")
+    ctx.assume("whole-stream equivalence with a CEA-608 decoder is bounded only; rows are compared word by word (blank cells "
+               "separate words; how many there are, and the blank before . ! ? , that pycaption deliberately leaves out "
+               "after a mid-row code, are not compared)")
 
 
 # one reader object for every stream of the run: what a read returns must depend on the stream only,
